@@ -5,6 +5,8 @@
 // output tokens:
 //   <key(max_uncertainty)> then n times <key(radius)> <key(lo)> <key(hi)>   (f64::total_cmp keys, decimal i64)
 //   then  S <k> <id>*k   (the selection, in order)   or   P   (select panicked)
+// a line starting with L is a controller-level case (message loop + timer): the rest of the line is a
+// case of harness/ntp-proto/c37.rs and is run by it
 use super::super::*;
 use crate::algorithm::kalman::{
     matrix::{Matrix, Vector},
@@ -37,6 +39,9 @@ fn leap_of(code: &str) -> NtpLeapIndicator {
 #[test]
 fn verif_c03_driver() {
     crate::verif_hook::drive(|t| {
+        if t[0] == "L" {
+            return crate::algorithm::kalman::verif_hook::c37::run_case(&t[1..]);
+        }
         let sync = SynchronizationConfig {
             minimum_agreeing_sources: t[0].parse().unwrap(),
             ..Default::default()
